@@ -176,6 +176,7 @@ sched_of(const Plan& p)
     c.p_startdelay = p.getd("sched.p_startdelay", 0);
     c.p_access = p.getd("sched.p_access", 0);
     c.p_prewait = p.getd("sched.p_prewait", 0);
+    c.p_timeout = p.getd("sched.p_timeout", 0);
     c.max_stall_ns = (uint64_t)p.geti("sched.max_stall_ns", 50000000);
     c.step_cap = (uint64_t)p.geti("sched.step_cap", 2000000);
     if (p.has_events) {
@@ -215,6 +216,10 @@ draw_sched(Plan& p, Rng& rng, uint64_t est_steps, bool allow_stalls,
     }
     if (allow_stalls && rng.chance(0.25))
         p.setd("sched.p_startdelay", 0.5);
+    if (allow_stalls && rng.chance(0.3)) {
+        static const double pt[] = { 0.001, 0.01, 0.05 };
+        p.setd("sched.p_timeout", pt[rng.below(3)]);
+    }
     if (allow_stalls && rng.chance(0.3)) {
         static const double pw[] = { 0.05, 0.3, 0.8 };
         p.setd("sched.p_prewait", pw[rng.below(3)]);
